@@ -388,6 +388,8 @@ def check_C08(tier, seed):
         if "is violated" in e:
             v.violation("spec:%s" % e[:60], "TLC: %s" % e, {})
     scancheck.replay(v, exe, res, seed=seed, tag="C08")
+    # the same histories with every text handed over as a stream (cfg_parse_fp)
+    scancheck.replay(v, exe, res, seed=seed, tag="C08fp", sigprefix="scan-fp", via="parsefp")
     w = run_tlc("MC_Scan.tla", os.path.join("mc", "scan_unrepaired.cfg"), want_behaviours=False)
     if "P_C08_Clean" not in w.violated:
         raise ModelError("vacuity witness failed: the unrepaired scanner model should violate P_C08_Clean")
